@@ -585,3 +585,141 @@ theorem parseIndirectStream_good (env : Env R) (henv : EnvOk env) (buf : Buf) (h
       · rw [hr]; simp only [Out.bind_ok]; exact good_ok _ (by omega) r2
 
 end PdfLex
+
+/-! ### a request restricted to `ParseFlags::INTEGER` never yields a stream
+
+`Storage::resolve_ref` asks for an indirect `/Length` with `ParseFlags::INTEGER`; `check(flags, DICT)` fails before a
+dictionary — let alone a stream — is read, so the length resolver cannot recurse through another stream. -/
+
+namespace PdfLex
+
+variable {R : Type}
+
+theorem bind_eq_ok {α β : Type} {x : Out α} {f : α → Out β} {r : β} (h : x.bind f = .ok r) :
+    ∃ a, x = .ok a ∧ f a = .ok r := by
+  cases x with
+  | ok a => exact ⟨a, rfl, h⟩
+  | err => cases h
+  | panic => cases h
+  | oof => cases h
+
+def NotStream : Prim R → Prop
+  | .stream _ _ => False
+  | _ => True
+
+theorem notStream_of_nest {v : Prim R} (h : nest v = 0) : NotStream v := by
+  cases v <;> simp [NotStream, nest] at h ⊢
+
+theorem parseArray_notStream (env : Env R) (buf : Buf) : ∀ (fuel pos : Nat) (ctx : Option (Nat × Nat)) (depth : Nat)
+    (acc : List (Prim R)) (v : Prim R) (p : Nat), parseArray env buf fuel pos ctx depth acc = .ok (v, p) → NotStream v := by
+  intro fuel
+  induction fuel with
+  | zero => intro pos ctx depth acc v p h; simp [parseArray] at h
+  | succ fuel ih =>
+    intro pos ctx depth acc v p h
+    unfold parseArray at h
+    obtain ⟨pk, _, h⟩ := bind_eq_ok h
+    split at h
+    · obtain ⟨w, _, h⟩ := bind_eq_ok h
+      cases h; trivial
+    · obtain ⟨e, _, h⟩ := bind_eq_ok h
+      exact ih _ _ _ _ _ _ h
+
+theorem check_integer_dict : check Flags.integer Flags.dict = .err := by decide
+theorem check_integer_number : check Flags.integer Flags.number = .err := by decide
+
+/-- `_parse_with_lexer_ctx` under `ParseFlags::INTEGER`: whatever is returned is not a stream -/
+theorem parseInner_integer_notStream (env : Env R) (buf : Buf) (fuel pos : Nat) (ctx : Option (Nat × Nat)) (depth : Nat)
+    (hpos : pos ≤ buf.size) (v : Prim R) (p : Nat)
+    (h : parseInner env buf fuel pos ctx Flags.integer depth = .ok (v, p)) : NotStream v := by
+  cases fuel with
+  | zero => simp [parseInner] at h
+  | succ fuel =>
+    unfold parseInner at h
+    obtain ⟨_, _, h⟩ := bind_eq_ok h
+    obtain ⟨w, hw, h⟩ := bind_eq_ok h
+    have hw2 : w.2 ≤ buf.size := by
+      rcases next_spec buf pos hpos with he | ⟨w', hw', _, _, a3⟩
+      · rw [he] at hw; cases hw
+      · rw [hw'] at hw; cases hw; exact a3
+    simp only [] at h
+    split at h
+    · rw [check_integer_dict] at h; cases h
+    · split at h
+      · rcases parseIntOrRef_spec (R := R) buf w.2 (slice buf w.1 w.2) Flags.integer hw2 with hg | ⟨v', hv', hn⟩
+        · rcases hg with he | ⟨v', p', hp', _, _, hn⟩
+          · rw [he] at h; cases h
+          · rw [hp'] at h; cases h; exact notStream_of_nest hn
+        · rw [hv'] at h; cases h; exact notStream_of_nest hn
+      · split at h
+        · rw [check_integer_number] at h; cases h
+        · split at h
+          · obtain ⟨_, _, h⟩ := bind_eq_ok h
+            obtain ⟨s, _, h⟩ := bind_eq_ok h
+            cases h; trivial
+          · split at h
+            · obtain ⟨_, _, h⟩ := bind_eq_ok h
+              split at h
+              · cases h
+              · exact parseArray_notStream env buf _ _ _ _ _ _ _ h
+            · split at h
+              · obtain ⟨_, _, h⟩ := bind_eq_ok h
+                obtain ⟨_, _, h⟩ := bind_eq_ok h
+                obtain ⟨_, _, h⟩ := bind_eq_ok h
+                obtain ⟨_, _, h⟩ := bind_eq_ok h
+                obtain ⟨_, _, h⟩ := bind_eq_ok h
+                cases h; trivial
+              · split at h
+                · obtain ⟨_, _, h⟩ := bind_eq_ok h
+                  obtain ⟨_, _, h⟩ := bind_eq_ok h
+                  obtain ⟨_, _, h⟩ := bind_eq_ok h
+                  obtain ⟨_, _, h⟩ := bind_eq_ok h
+                  obtain ⟨_, _, h⟩ := bind_eq_ok h
+                  cases h; trivial
+                · split at h
+                  · obtain ⟨_, _, h⟩ := bind_eq_ok h; cases h; trivial
+                  · split at h
+                    · obtain ⟨_, _, h⟩ := bind_eq_ok h; cases h; trivial
+                    · split at h
+                      · obtain ⟨_, _, h⟩ := bind_eq_ok h; cases h; trivial
+                      · obtain ⟨_, _, h⟩ := bind_eq_ok h; cases h
+
+theorem parseCtx_integer_notStream (env : Env R) (buf : Buf) (fuel pos : Nat) (ctx : Option (Nat × Nat)) (depth : Nat)
+    (hpos : pos ≤ buf.size) (v : Prim R) (p : Nat)
+    (h : parseCtx env buf fuel pos ctx Flags.integer depth = .ok (v, p)) : NotStream v := by
+  cases fuel with
+  | zero => simp [parseCtx] at h
+  | succ fuel =>
+    unfold parseCtx at h
+    split at h
+    · rename_i r hr
+      cases h
+      exact parseInner_integer_notStream env buf fuel pos ctx depth hpos _ _ hr
+    · obtain ⟨_, _, h⟩ := bind_eq_ok h; cases h
+    · cases h
+    · cases h
+
+/-- `parse_indirect_object(…, ParseFlags::INTEGER)` never returns a stream -/
+theorem parseIndirectObject_integer_notStream (env : Env R) (buf : Buf) (fuel pos : Nat) (hpos : pos ≤ buf.size)
+    (id : Nat × Nat) (v : Prim R) (p : Nat)
+    (h : parseIndirectObject env buf fuel pos Flags.integer = .ok ((id, v), p)) : NotStream v := by
+  unfold parseIndirectObject at h
+  obtain ⟨hd, hhd, h⟩ := bind_eq_ok h
+  obtain ⟨id', q⟩ := hd
+  have hq : q ≤ buf.size := by
+    rcases parseObjHeader_good buf pos hpos with he | ⟨_, q', hq', _, h2⟩
+    · rw [he] at hhd; cases hhd
+    · rw [hq'] at hhd; cases hhd; exact h2
+  obtain ⟨r, hr, h⟩ := bind_eq_ok h
+  obtain ⟨v', q'⟩ := r
+  have hns := parseCtx_integer_notStream env buf fuel q (some id') maxDepth hq v' q' hr
+  simp only [] at h
+  split at h
+  · split at h
+    · cases h; exact hns
+    · obtain ⟨_, _, h⟩ := bind_eq_ok h; cases h; exact hns
+    · cases h
+    · cases h
+  · obtain ⟨_, _, h⟩ := bind_eq_ok h; cases h; exact hns
+
+end PdfLex
